@@ -503,6 +503,35 @@ def rule_clause(repo, tier):
                                 node=n.test))
         if not found:
             res.add(Finding('C20.CLAUSE', h, '%s.step has no test against self.decreasing' % cls_, construct='decreasing missing'))
+    # the comparison baseline of ReduceToBason is refreshed on every step, after it was compared with the new loss
+    g = repo.find_method(repo.cls(STEP, 'ReduceToBason'), 'step')
+    pths = step_paths(g, {'last', 'patience_count', 'decreasing'})
+    bad_last = None
+    for ev, ex in pths:
+        if ex not in ('fall', 'return'):
+            continue
+        writes = 0
+        compared = False
+        order_ok = True
+        for e in ev:
+            if e[0] == 'assume' and any(dotted(x) == 'self.decreasing' for x in ast.walk(e[1])):
+                compared = True
+            if e[0] == 'stmt':
+                for a, v, st_ in attr_stores(ast.Module([e[1]], [])):
+                    if a == 'last':
+                        writes += 1
+                        if not compared:
+                            order_ok = False
+                        if dotted(v) != 'loss':
+                            bad_last = bad_last or ('self.last is set to `%s`, not to the current loss' % (src(v) if v is not None else None))
+        if writes != 1:
+            bad_last = bad_last or ('self.last is written %d times on a path through step: the comparison baseline must be refreshed exactly once '
+                                    'per step, whether or not the step improved' % writes)
+        elif not order_ok:
+            bad_last = bad_last or 'self.last is refreshed before it was compared with the new loss'
+    res.inst({'function': g.fq, 'baseline_refreshed_every_step': bad_last is None, 'paths': len(pths)}, 'last')
+    if bad_last:
+        res.add(Finding('C20.CLAUSE', g, bad_last, construct='baseline refresh'))
     return res
 
 
